@@ -135,6 +135,30 @@ impl File {
     pub fn flush(&mut self) -> (r: Result<()>)
         ensures final(self)@ == old(self)@,
     { unimplemented!() }
+    // ---- further commonly used methods of tokio::fs::File / the Async*Ext traits (additive; not
+    // ---- called by the current code, present so that an edit that switches to them is still judged)
+    /// `File::sync_all` (tokio-1.x src/fs/file.rs): "Attempts to sync all OS-internal metadata
+    /// to disk." — content and cursor as they are (durability is not modelled)
+    #[verifier::external_body]
+    pub fn sync_all(&self) -> (r: Result<()>)
+    { unimplemented!() }
+    /// `File::sync_data`: "This function is similar to sync_all, except that it may not
+    /// synchronize file metadata to the filesystem."
+    #[verifier::external_body]
+    pub fn sync_data(&self) -> (r: Result<()>)
+    { unimplemented!() }
+    /// `AsyncWriteExt::shutdown`: "Shuts down the output stream, ensuring that the value can be
+    /// dropped cleanly." — for a file: flush (tokio src/fs/file.rs `poll_shutdown` = `poll_flush`)
+    #[verifier::external_body]
+    pub fn shutdown(&mut self) -> (r: Result<()>)
+        ensures final(self)@ == old(self)@,
+    { unimplemented!() }
+    /// `AsyncSeekExt::stream_position`: "the current seek position from the start of the
+    /// stream" (= seek(SeekFrom::Current(0))), cursor unchanged
+    #[verifier::external_body]
+    pub fn stream_position(&mut self) -> (r: Result<u64>)
+        ensures final(self)@ == old(self)@, r is Ok ==> r->Ok_0 == old(self)@.pos,
+    { unimplemented!() }
     /// `LockWrite::lock_write(self)` (async_fd_lock): the guard derefs to the file
     #[verifier::external_body]
     pub fn lock_write(self) -> (r: core::result::Result<File, LockError>)
@@ -172,11 +196,12 @@ pub mod vfs {
     { unimplemented!() }
 }
 
-/// `binary_stream::Options` value of `encoding_options()`
-pub struct EncodingOptions { pub _p: () }
-/// `sos_core::encoding::encoding_options()` (Little endian, 16 MiB guard: what
-/// prelude/binary_stream.rs models)
-pub fn encoding_options() -> EncodingOptions { EncodingOptions { _p: () } }
+/// `sos_core::encoding::encoding_options()` (crates/core/src/encoding/mod.rs:28) is no
+/// longer a stand-in here: unit `vaultfile` EXTRACTS the function and its constant and pins
+/// the 16 MiB guard and the little-endian order that prelude/binary_stream.rs builds into
+/// BinaryReader / BinaryWriter (`[decode_guard_is_16mib]`, `[layout_is_little_endian]`, as
+/// units/frag/codec_base.vrs and units/stream.vrs do).  The constructors below take the
+/// real `binary_stream::Options` (struct in prelude/binary_stream.rs).
 
 /// `std::io::Cursor<Vec<u8>>`
 #[verifier::external_body]
@@ -199,7 +224,7 @@ impl AsyncSeek for File {}
 impl BinaryWriter<Cursor> {
     /// `BinaryWriter::new(stream, options)`: writes go to the stream at its cursor
     #[verifier::external_body]
-    pub fn new(c: Cursor, o: EncodingOptions) -> (r: Self)
+    pub fn new(c: Cursor, o: Options) -> (r: Self)
         ensures r@ == c@,
     { unimplemented!() }
     /// `flush`: no effect on a Cursor
@@ -225,7 +250,7 @@ impl BinaryReader<File> {
     /// taken by value (the real code lends `&mut guard` and does not use the
     /// guard again).
     #[verifier::external_body]
-    pub fn new(f: File, o: EncodingOptions, Tracked(fs): Tracked<&mut Fs>) -> (r: Self)
+    pub fn new(f: File, o: Options, Tracked(fs): Tracked<&mut Fs>) -> (r: Self)
         requires old(fs).files.contains_key(f@.path), f@.pos <= old(fs).files[f@.path].len(),
         ensures
             *final(fs) == *old(fs),
